@@ -1,6 +1,7 @@
 import AtreeProofs.Codec.RoundTrip
 import AtreeProofs.Codec.HeadG
 import AtreeProofs.Codec.RoundTripD
+import AtreeProofs.Codec.RoundTripW
 /-
   C07 — Slab encoding is canonical, self-describing and round-trips exactly.
   PROPERTY THEOREMS about the byte-level model (`AtreeModel/Codec`).
@@ -182,9 +183,8 @@ theorem storable_accepts_trailing (id : SlabID) (e : Elem) (hv : validElem e) (e
   `singleElements` is not empty; digest levels are below 24 (Go refuses levels above
   `maxDigestLevel`); the nesting of collision groups and wrappers stays within the CBOR library's
   limit of 32 levels (`MEls.vneed`); plain values are values of the harness.
-  `MapDataOK.noInl`: keys and values are plain values, slab references and wrapped ones — the round
-  trip of slabs with inlined arrays / maps and of compact maps is covered by the differential
-   comparison only so far. -/
+  `MapDataOK.noInl`: keys and values are plain values, slab references and wrapped ones; slabs with
+  inlined arrays / maps follow in the next section. -/
 
 /-- Decoding the encoding of a map index slab gives the slab back. -/
 theorem decode_encode_mindex (m : MapMeta) (ok : MapMetaOK m) (n : Nat) :
@@ -232,5 +232,91 @@ theorem decoded_size_eq_mdata (s : MapData) (ok : MapDataOK s) (n : Nat) :
 theorem mdata_accepts_trailing (s : MapData) (ok : MapDataOK s) (extra : Bytes) (n : Nat) :
     decodeSlab s.id (encodeMapData s ++ extra) n = .ok (.mdata s) (n + s.els.allocs) :=
   decodeSlab_encodeMapData s ok extra n
+
+/-! ## Second part of the model: inlined arrays and maps, the shared inlined-extra-data section
+
+  `MapDataOKI` / `ArrDataOKI`: as above, with `Stor.RTI` instead of `Stor.RT` (inlined slabs: valid
+  type infos, slab indexes, counts, seeds; sizes fit `uint32`; element counts fit the fixed-width
+  heads), `noCompact` (no inlined map is written in the compact form), at most 256 entries in the
+  shared section (the extra-data index is one byte; Go refuses more), nesting within the CBOR
+  library's limit (`vneedI`).  Inlined arrays and maps nest to any depth, inside wrappers, inside
+  collision groups, as keys or values; array extra data is shared between same-typed children and a
+  type info that occurs in more than one entry is written once and referred to by
+  `CBORTagTypeInfoRef` — `newInlinedExtraDataFromData_enc` is the round trip of that section.
+  The decoder is handed the complete entry list while the encoder assigned indexes to a growing
+  list; `decStG_encI` relates the two. -/
+
+/-- Decoding the encoding of a map data slab with inlined arrays / maps gives the slab back. -/
+theorem decode_encode_mdata_inlined (s : MapData) (ok : MapDataOKI s) (n : Nat) :
+    decodeSlab s.id (encodeMapData s) n
+      = .ok (.mdata s) (n + iedAllocs (encMEls s.els []).2 + s.els.allocsI) := by
+  have := decodeSlab_encodeMapDataI s ok [] n
+  simpa using this
+
+/-- Decoding the encoding of an array data slab with inlined arrays / maps gives the slab back. -/
+theorem decode_encode_adata_inlined (a : ArrData) (ok : ArrDataOKI a) (n : Nat) :
+    decodeSlab a.id (encodeArrData a) n
+      = .ok (.adata a) (n + iedAllocs (encSts a.elems []).2 + a.elems.length + allocsISts a.elems) := by
+  have := decodeSlab_encodeArrDataI a ok [] n
+  simpa using this
+
+/-- … and one with wrapped elements but no inlined slab (the has-inlined-slabs flag is clear). -/
+theorem decode_encode_adata_wrapped (a : ArrData) (ok : ArrDataOKW a) (n : Nat) :
+    decodeSlab a.id (encodeArrData a) n = .ok (.adata a) (n + a.elems.length + allocsISts a.elems) := by
+  have := decodeSlab_encodeArrDataW a ok [] n
+  simpa using this
+
+/-- A large-value slab holding a wrapped value. -/
+theorem decode_encode_storable_wrapped (id : SlabID) (x : Stor) (hrt : x.RT) (hni : x.noInl)
+    (hnest : x.vneed + 1 ≤ maxNestedLevels) (n : Nat) :
+    decodeSlab id (encodeStorableSlabG (.some x)) n = .ok (.storableG id (.some x)) n := by
+  have := decodeSlab_encodeStorableSlabG id x hrt hni hnest [] n
+  simpa using this
+
+/-- An array data slab register with inlined children followed by extra bytes is rejected. -/
+theorem decode_rejects_trailing_adata_inlined (a : ArrData) (ok : ArrDataOKI a) (extra : Bytes)
+    (hex : extra ≠ []) (n : Nat) :
+    decodeSlab a.id (encodeArrData a ++ extra) n
+      = .error .decoding (n + iedAllocs (encSts a.elems []).2 + a.elems.length + allocsISts a.elems) := by
+  rw [decodeSlab_encodeArrDataI a ok extra n, if_pos hex]
+
+/-- Re-encoding whatever the decoder returns for a register of a slab with inlined children yields
+    the identical byte string. -/
+theorem reencode_fixpoint_mdata_inlined (s : MapData) (ok : MapDataOKI s) (n : Nat) (s' : Slab) (k : Nat)
+    (h : decodeSlab s.id (encodeMapData s) n = .ok s' k) : encodeSlab s' = encodeMapData s := by
+  rw [decode_encode_mdata_inlined s ok n] at h
+  cases h
+  rfl
+
+theorem reencode_fixpoint_adata_inlined (a : ArrData) (ok : ArrDataOKI a) (n : Nat) (s' : Slab) (k : Nat)
+    (h : decodeSlab a.id (encodeArrData a) n = .ok s' k) : encodeSlab s' = encodeArrData a := by
+  rw [decode_encode_adata_inlined a ok n] at h
+  cases h
+  rfl
+
+/-- The shared inlined-extra-data section round-trips: array and map extra data in first-use order,
+    duplicated type infos written once and referred to by `CBORTagTypeInfoRef`. -/
+theorem decode_encode_inlined_extra_data (xs : List XD) (hx : XOK xs) (hne : xs ≠ []) (hlen : xs.length ≤ 256)
+    (rest : Bytes) (n : Nat) :
+    newInlinedExtraDataFromData (encodeIED xs ++ rest) n
+      = .ok (xs, rest) (n + (findDuplicateTypeInfo xs).length + xs.length) :=
+  newInlinedExtraDataFromData_enc xs hx hne hlen rest n
+
+/-- PARTIAL with respect to the property text: the two theorems above cover every slab with inlined
+    arrays / maps EXCEPT those in which some inlined map is written in the COMPACT form (tag 252,
+    `compactMapExtraData`: same-typed composite maps sharing hoisted keys and digests).  For those
+    the property allows the decoded children to adopt the shared seed and key order; the model
+    implements exactly that (`decInlCMap`, `encFind`) and the `codec` stream compares, for every
+    compact-encoded slab of every history, the model's bytes with `EncodeSlab`'s, the model's decoded
+    form with `DecodeSlab`'s, and checks in Go that content is preserved up to seed and order and that
+    re-encoding the decoded slab gives the register back — but there is no Lean theorem for the
+    compact form beyond the length law `C06.enc_len_*_compact`.  Stated here so that the gap is
+    visible in the theorem list: both non-compact round trips, as one statement. -/
+theorem decode_encode_inlined_partial :
+    (∀ (s : MapData), MapDataOKI s → ∀ n, decodeSlab s.id (encodeMapData s) n
+        = .ok (.mdata s) (n + iedAllocs (encMEls s.els []).2 + s.els.allocsI)) ∧
+    (∀ (a : ArrData), ArrDataOKI a → ∀ n, decodeSlab a.id (encodeArrData a) n
+        = .ok (.adata a) (n + iedAllocs (encSts a.elems []).2 + a.elems.length + allocsISts a.elems)) :=
+  ⟨decode_encode_mdata_inlined, decode_encode_adata_inlined⟩
 
 end Atree.C07
